@@ -103,7 +103,7 @@ def run(case, ctx):
 
 # ---------------------------------------------------------------- sensitivity
 sens_el = {
-    "int": st.integers(-(2 ** 59), 2 ** 59), "smallint": st.integers(-5, 5), "str": V.strs, "float": V.small_floats,
+    "int": st.integers(-(2 ** 59), 2 ** 59), "smallint": st.integers(-5, 5), "str": V.strs, "float": st.one_of(V.small_floats, V.small_floats, st.sampled_from([float("inf"), float("-inf"), -0.0])),
     "date": V.dates, "bool": st.booleans(), "none_int": st.one_of(st.none(), st.integers(-5, 5)),
     # compound cells (serif defines their element hash itself): tuples, lists, dicts, sets of small non-negative ints
     "tuple": st.lists(st.integers(0, 5), max_size=3).map(tuple),
@@ -217,6 +217,18 @@ def run_twin(case, ctx):
         if must_change and v.fingerprint() == fp_before_v:
             return ctx.fail(f"change-not-noticed/vector/next-rung-overwrite/{type(vals[i]).__name__}",
                             f"{vals}[{i}] = {tw!r}: {vals[i]!r} != {tw!r} and hash() tells them apart, the fingerprint stayed {fp_before_v}")
+        # ... and of a fresh build from the values as the program wrote them (equal, element by element, to what the vector
+        # holds after the promotion: 1 where it now holds 1.0)
+        wrote = list(vals)
+        wrote[i] = tw
+        if not must_change and all(a_ == b_ for a_, b_ in zip(wrote, list(v))) and all(type(a_) in (bool, int, float, complex) for a_ in wrote):
+            try:
+                fw = S.Vector(list(wrote)).fingerprint()
+            except Exception:  # noqa: BLE001
+                fw = None
+            if fw is not None and fw != v.fingerprint():
+                return ctx.fail(f"stale/vector/promoted-differs-from-equal-fresh-build/{type(vals[i]).__name__}",
+                                f"{vals}[{i}] = {tw!r}: the vector holds {list(v)}, a fresh Vector({wrote}) (equal element by element) has another fingerprint")
         if v.fingerprint() != S.Vector(list(v)).fingerprint():
             return ctx.fail(f"stale/vector/equal-valued-overwrite/{via}/{type(vals[i]).__name__}",
                             f"{vals}[{i}] = {tw!r} (cached={case['read_first']}): now {list(v)}")
